@@ -153,6 +153,28 @@ def extra_obligations(p0, p, typer, case):
                           dict(case, instantiation=str(n.class_type), not_inferable=missing,
                                declared_type_kept=expected)))
         if isinstance(n, ast.FunctionCall) and isinstance(b, ast.FunctionCall) and n.type_args and n.can_infer_type_args \
+                and not b.can_infer_type_args and isinstance(par, ast.VariableDeclaration) and n.receiver is None:
+            # (call-init) the erased type arguments of a call that initialises a variable are determined by the call's own
+            # arguments, or -- for a type parameter that occurs in the return type -- by the declared type of the variable,
+            # if that is kept
+            callee = funcs.get(n.func)
+            if callee is not None and callee.type_parameters:
+                def tvars(t):
+                    if t.is_type_var():
+                        return {t.name}
+                    if hasattr(t, 'get_type_variables'):
+                        return {v.name for v in t.get_type_variables(p.bt_factory)}
+                    return set()
+                in_params = set()
+                for prm in callee.params:
+                    in_params |= tvars(prm.get_type())
+                in_ret = tvars(callee.get_type())
+                kept = par.var_type is not None
+                missing = [tpar.name for tpar in callee.type_parameters
+                           if tpar.name not in in_params and not (kept and tpar.name in in_ret)]
+                obs.append(Ob('call-init|type-arguments-of-call-inferable', not missing,
+                              dict(case, call=n.func, variable=par.name, declared_type_kept=kept, not_inferable=missing)))
+        if isinstance(n, ast.FunctionCall) and isinstance(b, ast.FunctionCall) and n.type_args and n.can_infer_type_args \
                 and not b.can_infer_type_args and isinstance(par, ast.BinaryOp):
             # (operand) an operator gives its operands no expected type: the erased type arguments of a call in operand
             # position must be determined by the call's own arguments
